@@ -322,12 +322,26 @@ class XTimeout(BaseException):
     pass
 
 
+class _XAllInterfaces:
+    """zope: IFoo.providedBy(stand-in): on our side that is whatever the property module's model of `providedBy` says
+    (a ghost field of the collaborator, ...), which the stand-in cannot know: the run is abandoned"""
+    extends = None
+
+    def __call__(self, iface):
+        raise XForbidden("modelled-collaborator:providedBy")
+
+    def isOrExtends(self, iface):
+        raise XForbidden("modelled-collaborator:providedBy")
+
+
 class XFake:
     """stand-in for a collaborator / opaque token: inert; a call on it is recorded (and returns None)"""
     calls = []
+    __providedBy__ = __provides__ = _XAllInterfaces()
 
-    def __init__(self, name):
+    def __init__(self, name, opaque=False):
         object.__setattr__(self, "_xname", name)
+        object.__setattr__(self, "_xopaque", opaque)
 
     def __getattr__(self, attr):
         if attr.startswith("__") and attr.endswith("__"):
@@ -346,7 +360,13 @@ class XFake:
         return rec
 
     def __call__(self, *a, **kw):
-        XFake.calls.append({"on": object.__getattribute__(self, "_xname"), "m": "__call__", "nkw": len(kw),
+        name = object.__getattribute__(self, "_xname")
+        if object.__getattribute__(self, "_xopaque"):
+            # an opaque callable handed in from outside: the event is named after it and carries the callable first
+            XFake.calls.append({"on": "callback", "m": name, "nkw": len(kw),
+                                "args": [{"ok": False, "v": None}] + [dict(zip(("ok", "v"), xcanon(x))) for x in a]})
+            return None
+        XFake.calls.append({"on": name, "m": "__call__", "nkw": len(kw),
                             "args": [dict(zip(("ok", "v"), xcanon(x))) for x in a]})
         return None
 
@@ -486,7 +506,7 @@ def xdecode(v, opaques):
         if "__opaque__" in v:
             key = (v["__opaque__"], v.get("id"))
             if key not in opaques:
-                opaques[key] = XFake(v["__opaque__"])
+                opaques[key] = XFake(v["__opaque__"], opaque=True)
             return opaques[key]
         return {k: xdecode(x, opaques) for k, x in v.items()}
     if isinstance(v, list):
